@@ -70,18 +70,36 @@ class FormatterModel:
         self.ok = True
         self._roles_state = None
 
-    def need_roles(self, rep):
-        """Formatter fields by role (constructor + public setters). Only rules that talk about fields need this."""
+    def need_roles(self, rep, which=None):
+        """Formatter fields by role (constructor + public setters). Only rules that talk about fields need this;
+        `which` limits the demand to some roles (a property that only talks about the rate does not care whether the
+        container-id setter has a recognisable shape)."""
         if self._roles_state is None:
-            self._roles_state = bool(self._find_roles(rep))
-        return self._roles_state
+            self.missing = {}
+            self.roles = {}
+            self.role_of = {}
+            self._find_roles()
+            self._roles_state = True
+        need = which or ('prefix', 'key', 'val', 'type', 'ts', 'rate', 'cid', 'tags')
+        ok = True
+        for r in need:
+            if r in self.missing:
+                ok = False
+                kind, where_, msg = self.missing[r]
+                if kind == 'anchor':
+                    rep.anchor_lost('R9', msg)
+                else:
+                    rep.unknown('R9', 'formatter-role/%s' % r, where_, msg)
+        return ok
 
-    def _find_roles(self, rep):
+    def _find_roles(self):
         cad, fm = self.cad, self.format
-        roles = {}
+        roles = self.roles
+        ALL = ('prefix', 'key', 'val', 'type', 'ts', 'rate', 'cid', 'tags')
         cn = cad.method('cadence::types::Counter', 'new')
         if len(cn) != 1:
-            rep.anchor_lost('F0', 'Counter::new')
+            for r in ALL:
+                self.missing[r] = ('anchor', '', 'Counter::new')
             return
         ib = inl(cad, cn[0], never=lambda b: b.path == fm.path)
         Tc = Terms(ib)
@@ -92,7 +110,8 @@ class FormatterModel:
                 if a[0] == 'adt' and a[1] == self.F:
                     agg = a
         if agg is None:
-            rep.unknown('R9', 'formatter-constructor', cn[0].where(), 'Counter::new does not build the formatter by a visible aggregate')
+            for r in ALL:
+                self.missing[r] = ('unknown', cn[0].where(), 'Counter::new does not build the formatter by a visible aggregate')
             return
         self.ctor_agg = agg
         for n, v in agg[3]:
@@ -109,8 +128,8 @@ class FormatterModel:
         for meth, role in (('with_timestamp', 'ts'), ('with_sampling_rate', 'rate'), ('with_container_id', 'cid'), ('with_tag', 'tags')):
             bs = cad.method(MB, meth)
             if len(bs) != 1:
-                rep.anchor_lost('R9', 'MetricBuilder::%s' % meth)
-                return
+                self.missing[role] = ('anchor', '', 'MetricBuilder::%s' % meth)
+                continue
             ibs = inl(cad, bs[0])
             Ts = Terms(ibs)
             found = None
@@ -134,16 +153,16 @@ class FormatterModel:
                                 found = x[2][-1]
                             x = x[1]
             if found is None:
-                rep.unknown('R9', 'setter/%s' % meth, bs[0].where(), 'cannot see which formatter field the setter writes')
-                return
+                self.missing[role] = ('unknown', bs[0].where(), 'cannot see which formatter field %s writes' % meth)
+                continue
             roles[role] = found
-        need = {'prefix', 'key', 'val', 'type', 'ts', 'rate', 'cid', 'tags'}
-        if set(roles) != need or len(set(roles.values())) != len(need):
-            rep.unknown('R9', 'formatter-roles', fm.where(), 'formatter fields by role: %s' % roles)
-            return
-        self.roles = roles
-        self.role_of = {v: k for k, v in roles.items()}
-        return True
+        for r in ALL:
+            if r not in roles and r not in self.missing:
+                self.missing[r] = ('unknown', fm.where(), 'formatter field for role %s not identified' % r)
+        if len(set(roles.values())) != len(roles):
+            for r in list(roles):
+                self.missing[r] = ('unknown', fm.where(), 'ambiguous formatter roles %s' % roles)
+        self.role_of.update({v: k for k, v in roles.items()})
 
 
 def _display_arg(t):
@@ -348,7 +367,7 @@ def proj_path(t, root):
 # ------------------------------------------------------------------ R1+R2: format()
 def rule_format(fm, rep, rid='R1', scope='all'):
     cad = fm.cad
-    if not fm.need_roles(rep):
+    if not fm.need_roles(rep, {'all': None, 'values': ('prefix', 'key', 'val', 'type', 'rate', 'ts'), 'tags': ('tags', 'cid')}[scope]):
         return
     body = inl(cad, fm.format)
     T = Terms(body)
@@ -423,6 +442,8 @@ def rule_format(fm, rep, rid='R1', scope='all'):
         for bb, atoms in sorted(ev.events.items()):
             for a in atoms:
                 r = classify(bb, a)
+                if isinstance(r, str) and a[0] == 'val':
+                    continue        # a field this property does not talk about
                 if isinstance(r, str):
                     ok = False
                     rep.bad(rid, 'format/output-site', body.where(bb), 'formatter output not understood: %s' % r)
@@ -643,23 +664,26 @@ def rule_type_codes(fm, rep, rid='R3'):
 
 
 # ------------------------------------------------------------------ R9 setter flow, R8 constructors
-def rule_setters(fm, rep, rid='R9'):
+def rule_setters(fm, rep, rid='R9', only=None):
     cad = fm.cad
-    if not fm.need_roles(rep):
+    if not fm.need_roles(rep, only):
         return
     # constructor initialises options to None and tags empty
     agg = dict(fm.ctor_agg[3])
-    for role in ('ts', 'rate', 'cid'):
+    for role in [r for r in ('ts', 'rate', 'cid') if only is None or r in only]:
         v = agg.get(fm.roles[role])
         ok = v is not None and v[0] == 'adt' and v[2] == 'None'
         rep.ob(rid, 'ctor/%s-starts-none' % role, ok, fm.format.where(), 'a new formatter has no %s' % role if ok else 'formatter starts with %s = %s' % (role, fmt(v) if v else '?'))
-    v = agg.get(fm.roles['tags'])
-    ok = v is not None and term_callee_is(v, 'alloc::vec::Vec::new', 'alloc::vec::Vec::with_capacity')
-    rep.ob(rid, 'ctor/tags-start-empty', ok, fm.format.where(), 'a new formatter has no tags')
+    if only is None or 'tags' in only:
+        v = agg.get(fm.roles['tags'])
+        ok = v is not None and term_callee_is(v, 'alloc::vec::Vec::new', 'alloc::vec::Vec::with_capacity')
+        rep.ob(rid, 'ctor/tags-start-empty', ok, fm.format.where(), 'a new formatter has no tags')
     spec = {'with_timestamp': ('ts', 'scalar'), 'with_sampling_rate': ('rate', 'scalar'), 'with_container_id': ('cid', 'ref'),
             'with_tag': ('tags', 'kv'), 'with_tag_value': ('tags', 'v')}
     n = 0
     for meth, (role, shape) in spec.items():
+        if only is not None and role not in only:
+            continue
         bs = cad.method(MB, meth)
         b = one(rep, rid, 'MetricBuilder::%s' % meth, bs)
         if b is None:
@@ -726,7 +750,7 @@ def rule_setters(fm, rep, rid='R9'):
             rep.ob(rid, 'setter/%s' % meth, okp and okg, b.where(),
                    '%s appends %s to the tag list on the Success state' % (meth, '(Some(key), value)' if shape == 'kv' else '(None, value)') if okp and okg else
                    '%s does not append exactly its arguments to the tag list' % meth)
-    rep.floor(rid, 'public setters', n, 5)
+    rep.floor(rid, 'public setters', n, 5 if only is None else 1)
 
 
 def rule_constructors(fm, rep, rid='R8'):
